@@ -522,6 +522,13 @@ def indexFrom : List LFile → List (Nat × Rec) → Except Err (List LFile)
 
 def indexRecs (recs : List (Nat × Rec)) : Except Err (List LFile) := indexFrom [] recs
 
+/-- `LogicalIndex.__enter__` on an object whose `logical_files` currently holds `prev` (left by `__init__`, by an
+earlier `__enter__`/`__exit__`, …): the list is re-initialised (`self.logical_files = []`) before the loop. -/
+def enterIndex (_prev : List LFile) (recs : List (Nat × Rec)) : Except Err (List LFile) := indexFrom [] recs
+
+/-- `LogicalIndex.__exit__`: `self.logical_files = []` -/
+def exitIndex (_cur : List LFile) : List LFile := []
+
 /-! ### The number Python computes from a floating word (used by the driver to print values; see also C07) -/
 
 inductive FVal where
